@@ -29,6 +29,17 @@ def run(ctx):
     data = json.load(open(out))
     rows, deep = data['rows'], data.get('deep', [])
     by = {}
+    gave_up = [r for r in rows + deep if r.get('gave_up_in')]
+    for r in gave_up[:2]:
+        smaller = [x for x in rows + deep if x['family'] == r['family'] and x['k'] < r['k'] and not x.get('gave_up_in')]
+        res['violations'].append({'signature': f'oracle:superpolynomial-{r["gave_up_in"].replace(" ", "-")}', 'case': {'family': r['family'], 'k': r['k']},
+                                  'observed': {'row': r, 'smaller': smaller},
+                                  'what': f'C20: the {r["gave_up_in"]} of the {r["family"]} family at k={r["k"]} was abandoned after 40 s'
+                                          + (f' (at k={smaller[-1]["k"]} the phases take {smaller[-1]["wall_s"]} s)' if smaller else '')})
+    if gave_up:
+        res['oracle_checks'] = len(rows)
+        res['evaluations'] += len(rows)
+        return res
     for row in rows:
         by.setdefault(row['family'], {})[row['k']] = row
     n = 0
